@@ -85,7 +85,11 @@ RawWin(o, m) == IF o.wsize.k = "mss" /\ m > 0 /\ o.wsize.n * m <= 65535 THEN [o 
 P_raw(o) == RawWin(o, o.mss)
 P_rawmss(o) == RawWin(o, IF o.mss = 1337 THEN 1338 ELSE 1337)
 P_rawsmall(o) == RawWin(o, 64)
-Perturbed(b) == <<P_raw(b), P_rawmss(b), P_rawsmall(b), P_olen(b), P_mss(b), P_sc(b), P_win(b), P_ttl(b), P_ver(b), P_pc(b), P_lay(b), P_q(b), P_qdup(b), P_qrev(b),
+\* the option is ABSENT from the observed segment (no MSS, no window scale) where the signature pins a value -- alone and together with
+\* every other window form (a signature window written mss*n says nothing about the MSS field itself)
+P_nomss(o) == [o EXCEPT !.mss = -1]
+P_nosc(o) == [o EXCEPT !.wscale = -1]
+Perturbed(b) == <<P_nomss(b), P_nosc(b), P_nomss(P_nosc(b)), P_nomss(P_win(b)), P_nomss(P_raw(b)), P_nosc(P_olen(b)), P_raw(b), P_rawmss(b), P_rawsmall(b), P_olen(b), P_mss(b), P_sc(b), P_win(b), P_ttl(b), P_ver(b), P_pc(b), P_lay(b), P_q(b), P_qdup(b), P_qrev(b),
                   P_olen(P_mss(b)), P_olen(P_sc(b)), P_ttl(P_olen(b)), P_olen(P_mss(P_sc(b))), P_win(P_ttl(P_mss(b))),
                   P_ver(P_olen(b)), P_q(P_mss(b))>>
 
